@@ -4,6 +4,7 @@ specification predicates of C06 on exact rationals.  Imports the model only (no 
 -/
 import PolyplyVerif.Driver.Common
 import PolyplyVerif.Model.Rotation
+import PolyplyVerif.Model.RotationAngles
 open Lean PolyplyVerif PolyplyVerif.Rot
 
 namespace PolyplyVerif.Driver.C06
@@ -55,6 +56,20 @@ def handle (j : Json) : Except String Json := do
     | some (out, built) =>
       pure (okJson [("out", Json.arr (out.map (fun (k, v) => Json.arr #[toJson k, v3ToJson v])).toArray),
                     ("built", toJson built)])
+  | "objective" =>
+    -- `target_function` of orient_template: pairs = [[opt, refAtomPos|null, cgNeighbour, built], …], own = cgOwn
+    let own ← v3OfJson (← j.getObjVal? "own")
+    let pairs ← listOf (fun e => do
+      let opt ← v3OfJson (← e.getObjVal? "opt")
+      let built ← (← e.getObjVal? "built").getBool?
+      let cgn ← v3OfJson (← e.getObjVal? "cg")
+      let atom ← match e.getObjVal? "atom" with
+        | .ok Json.null => pure cgn
+        | .ok v => v3OfJson v
+        | .error _ => pure cgn
+      pure (opt, refCoord built atom cgn own)) (← j.getObjVal? "pairs")
+    let angs ← listOf anglesOfJson (← j.getObjVal? "angles")
+    pure (okJson [("values", Json.arr (angs.map fun a => ratToJson (objective a pairs)).toArray)])
   | "spec" =>
     -- the property evaluated on what the implementation wrote for ONE residue
     let tol ← ratOfJson (← j.getObjVal? "tol")
